@@ -13,6 +13,7 @@ def run(prog, rep):
     r_hdr.run_check_header(prog, rep)
     rule = rep.rule('R-HDR-CTOR', 'constructor: checkHeader(mode, !Force) on every open path, never on create', floor=6)
     r_hdr.run_ctor(prog, rep, rule)
+    r_hdr.run_file_open(prog, rep, rule)
     from ..rules import r_close as _rc10
     _rc10.run_hid_owner(prog, rep)
     r_ver.run_width(prog, rep)
